@@ -31,8 +31,8 @@ Proof. repeat split; cbn; auto. Qed.
 (* a relay run: Up reads "ab" then (c, EOF).  Schedule: Down sets its deadlines, Up runs through
    its teardown (closing the covert connection), its closer closes the client connection, then
    Down — whose Read on the covert connection now fails with "closed" — winds down. *)
-Definition su : tscript := {| t_reads := [(ab, None); (c_, Some EOF)]; t_writes := []; t_dls := []; t_cdst := Some Reset; t_csrc := None |}.
-Definition sd : tscript := {| t_reads := [(ab, None)]; t_writes := []; t_dls := []; t_cdst := None; t_csrc := Some Timeout |}.
+Definition su : tscript := {| t_reads := [(ab, None); (c_, Some EOF)]; t_writes := []; t_dls := []; t_cdst := Some Reset; t_csrc := None; t_csrc_blocks := false |}.
+Definition sd : tscript := {| t_reads := [(ab, None)]; t_writes := []; t_dls := []; t_cdst := None; t_csrc := Some Timeout; t_csrc_blocks := false |}.
 Definition sched : list tid := [TDown; TDown; TUp; TUp; TUp; TUp; TUp; TUp; TUp; TUp; TUp; TUpCl; TDown; TDown].
 Definition cfin : cfg := let c := run (init_cfg 5 su sd) sched in run c (round_robin (measure c)).
 
@@ -52,3 +52,13 @@ Proof. vm_compute. split; reflexivity. Qed.
 (* the bound is not trivially large: this schedule makes 14 effective steps of at most 44 *)
 Example bound_example : effective (init_cfg 0 su sd) sched = 14%nat /\ measure (init_cfg 0 su sd) = 44%nat.
 Proof. vm_compute. split; reflexivity. Qed.
+
+(* a source closer whose Close never returns: the caller still returns, both connections have
+   received Close, and exactly that closer is left (inside Close) *)
+Definition su_blk : tscript := {| t_reads := [(ab, Some EOF)]; t_writes := []; t_dls := []; t_cdst := None; t_csrc := None; t_csrc_blocks := true |}.
+Definition cblk : cfg := let c := run (init_cfg 0 su_blk sd) [] in run c (round_robin (measure c)).
+Example blocked_closer :
+  finished cblk = true /\ main cblk = MDone /\ wg cblk = O /\ gauge cblk = 0%Z /\
+  closedA cblk = true /\ closedB cblk = true /\ clU cblk = CBlocked /\ clD cblk = CDone /\
+  delivered (th_acc (up cblk)) = ab.
+Proof. vm_compute. repeat split. Qed.
